@@ -740,35 +740,7 @@ impl M {
                 }
             }
         };
-        obs.add("text_bytes_fed", text.len() as u64);
-        let parsed = parse_text(&text, obs, &ctx);
-        match &parsed {
-            Parsed::Ok(v) => {
-                obs.count("text_parsed_ok");
-                if !v.is_empty() {
-                    obs.count("text_parsed_ok_nonempty");
-                }
-            }
-            Parsed::Errs(e) => {
-                obs.count("text_parsed_with_errors");
-                obs.add("text_errors_reported", e.len() as u64);
-                for k in e.iter().take(4) {
-                    obs.count(&format!("error_kind:{}", k.kind));
-                }
-            }
-            Parsed::Panicked => obs.count("text_panicked"),
-        }
-        check_format(&text, &parsed, obs, &ctx);
-        if !text.trim().is_empty() {
-            obs.nontrivial(&text);
-        }
-        if obs.wants_sample() {
-            obs.sample(json!({"text": clip(&text), "outcome": match &parsed {
-                Parsed::Ok(v) => format!("list of {} elements", v.len()),
-                Parsed::Errs(e) => format!("errors {:?}", kinds(e)),
-                Parsed::Panicked => "panic".into(),
-            }}));
-        }
+        check_text(&text, &ctx, obs);
     }
 
     fn case_golden(&self, idx: u64, obs: &mut Obs) {
@@ -872,6 +844,24 @@ impl M {
                     "info_double_quote_does_not_round_trip"
                 });
             }
+            4 => {
+                // a font number the parser itself produces (font=-65536 is read as 2^32-65536, the way ligatures and
+                // single characters print theirs): printing the parsed list at list level must not panic and must
+                // round-trip (found by the coverage-guided stage, C18-list-printer-panics-on-font-above-i32-max)
+                let model = vec![
+                    H::Char { c: 'a', font: 4294901760 },
+                    H::Char { c: 'b', font: u32::MAX },
+                    H::Char { c: 'c', font: 1 << 31 },
+                ];
+                check_round_trip(&model, Printer::ListLevel, obs, &ctx);
+                check_round_trip(&model, Printer::PerElement, obs, &ctx);
+                let text = "chars(\"x\", font=-65536)";
+                if let Parsed::Ok(list) = check_text(text, &ctx, obs) {
+                    if let Ok(m) = hlist_from_ds(&list) {
+                        check_round_trip(&m, Printer::ListLevel, obs, &ctx);
+                    }
+                }
+            }
             _ => {}
         }
     }
@@ -897,7 +887,7 @@ impl M {
     }
 }
 
-const KNOWN_CASES: u64 = 10;
+const KNOWN_CASES: u64 = 12;
 
 fn deep_nesting_probe(obs: &mut Obs) {
     let exe = match std::env::current_exe() {
@@ -1035,6 +1025,111 @@ impl Monitor for M {
             "mutated" | "soup" => self.case_text(phase, rng, obs),
             "deepnest-child" => self.case_deepnest_child(),
             other => obs.inconclusive(format!("unknown phase {other}")),
+        }
+    }
+}
+
+/// Seed corpus for the libFuzzer target: the repository's golden files (small ones), printed generated lists, and the
+/// language's keywords as a dictionary.
+pub fn fuzz_seeds() -> vcore::fuzzglue::Seeds {
+    let mut inputs: Vec<Vec<u8>> = vec![];
+    for g in goldens().iter() {
+        if g.text.len() <= 4096 {
+            inputs.push(g.text.clone().into_bytes());
+        }
+    }
+    for k in 0..300u64 {
+        let mut rng = Rng::new(0xC18 + k);
+        let (t, _) = seed_text(&mut rng);
+        if !t.is_empty() && t.len() <= 4096 {
+            inputs.push(t.into_bytes());
+        }
+        let mut rng = Rng::new(0x18C + k);
+        let t = textgen::program(&mut rng, k % 10 == 0);
+        if t.len() <= 4096 {
+            inputs.push(t.into_bytes());
+        }
+    }
+    let mut dictionary: Vec<String> = vec![];
+    for t in inputs.iter().take(200) {
+        for w in String::from_utf8_lossy(t).split(|c: char| !(c.is_ascii_alphanumeric() || c == '_')) {
+            if w.len() >= 2 && w.chars().next().map(|c| c.is_ascii_alphabetic()).unwrap_or(false) && !dictionary.iter().any(|d| d == w) {
+                dictionary.push(w.to_string());
+            }
+        }
+    }
+    for w in ["running", "fil", "fill", "filll", "pt", "#", "=", "\"", "[", "]", "(", ")", ",", "-16383.99998pt", "16383.99998pt"] {
+        dictionary.push(w.to_string());
+    }
+    vcore::fuzzglue::Seeds { inputs, dictionary }
+}
+
+/// One text through the parser and the formatter under the monitor's oracles (totality, located errors, format
+/// idempotence and own-output acceptance).
+fn check_text(text: &str, ctx: &Value, obs: &mut Obs) -> Parsed {
+    obs.add("text_bytes_fed", text.len() as u64);
+    let parsed = parse_text(text, obs, ctx);
+    match &parsed {
+        Parsed::Ok(v) => {
+            obs.count("text_parsed_ok");
+            if !v.is_empty() {
+                obs.count("text_parsed_ok_nonempty");
+            }
+        }
+        Parsed::Errs(e) => {
+            obs.count("text_parsed_with_errors");
+            obs.add("text_errors_reported", e.len() as u64);
+            for k in e.iter().take(4) {
+                obs.count(&format!("error_kind:{}", k.kind));
+            }
+        }
+        Parsed::Panicked => obs.count("text_panicked"),
+    }
+    check_format(text, &parsed, obs, ctx);
+    if !text.trim().is_empty() {
+        obs.nontrivial(text);
+    }
+    if obs.wants_sample() {
+        obs.sample(json!({"text": clip(text), "outcome": match &parsed {
+            Parsed::Ok(v) => format!("list of {} elements", v.len()),
+            Parsed::Errs(e) => format!("errors {:?}", kinds(e)),
+            Parsed::Panicked => "panic".into(),
+        }}));
+    }
+    parsed
+}
+
+/// Entry point of the libFuzzer target `c18_bwl_text` (harness/vfuzz): the text phases' oracle on a fuzzer-chosen
+/// input and, when it parses, the print -> parse round trip of the parsed list with both printers (as for the golden
+/// files). Inputs nested deeper than 200 levels are left to the monitor's own deep-nesting probe (listed finding
+/// C18-deep-nesting-overflows-stack: the process would die of stack exhaustion, which a fuzzer only sees as a crash).
+pub fn fuzz_one(data: &[u8], obs: &mut Obs) {
+    let Ok(text) = std::str::from_utf8(data) else {
+        return;
+    };
+    let mut depth = 0i32;
+    let mut max_depth = 0i32;
+    for b in text.bytes() {
+        match b {
+            b'(' | b'[' | b'{' => {
+                depth += 1;
+                max_depth = max_depth.max(depth);
+            }
+            b')' | b']' | b'}' => depth -= 1,
+            _ => {}
+        }
+    }
+    if max_depth > 200 {
+        return;
+    }
+    let ctx = json!({"phase": "fuzz"});
+    if let Parsed::Ok(list) = check_text(text, &ctx, obs) {
+        match hlist_from_ds(&list) {
+            Ok(model) => {
+                let _ = check_round_trip(&model, Printer::ListLevel, obs, &ctx);
+                let _ = check_round_trip(&model, Printer::PerElement, obs, &ctx);
+            }
+            Err(e) => obs.violation(format!("parser-produced-inexpressible-node:{e}"), json!({"text": clip(text)})),
         }
     }
 }
